@@ -65,6 +65,11 @@ type rowK struct {
 	Kspace string  `header:"k k"`
 }
 
+type jsonAny struct {
+	Name  string
+	Value any
+}
+
 type rowP struct { // header permutation shape
 	W string  `header:"w"`
 	X int     `header:"x"`
@@ -81,7 +86,18 @@ var (
 )
 
 func valEq(a, b reflect.Value) bool {
+	if !a.IsValid() || !b.IsValid() {
+		return a.IsValid() == b.IsValid()
+	}
+	if a.Type() != b.Type() {
+		return false // e.g. a float64 that comes back as a json.Number
+	}
 	switch a.Kind() {
+	case reflect.Interface:
+		if a.IsNil() || b.IsNil() {
+			return a.IsNil() == b.IsNil()
+		}
+		return valEq(a.Elem(), b.Elem())
 	case reflect.Float32, reflect.Float64:
 		x, y := a.Float(), b.Float()
 		return math.Float64bits(x) == math.Float64bits(y) || (math.IsNaN(x) && math.IsNaN(y))
@@ -731,6 +747,11 @@ func init() {
 				jsonRT(c, "[]int", [][]int{{1, 2, 3}, {4}, {}, {5, 6}})
 				one, two := 1.5, 2.5
 				jsonRT(c, "*float64", []*float64{&one, nil, &two, &one})
+				// interface-typed positions: what was written as a float64, string, bool, nil, object or array comes back as one
+				jsonRT(c, "any", []any{1.5, "x", true, nil, -0.25, map[string]any{"a": 2.0, "b": []any{1.0, "y"}}, []any{3.0, nil}})
+				jsonRT(c, "map[string]any", []map[string]any{{"n": 318.600006, "s": "t"}, {}, {"deep": map[string]any{"k": 1e21}}, {"z": nil}})
+				jsonRT(c, "[]any", [][]any{{1.0, 2.5}, {}, {"a", false}, {[]any{0.1}}})
+				jsonRT(c, "struct with an any field", []jsonAny{{Name: "a", Value: 1.5}, {Name: "b", Value: "s"}, {}, {Name: "c", Value: []any{2.0}}})
 				jsonRT(c, "struct with omitempty", []jsonOpt{{A: 7, B: []string{"x", "y"}, C: "n"}, {}, {A: 1}, {B: []string{"z"}}})
 				c.Sample(map[string]any{"json_values": "strings, floats, ints, bools, times, snapshots, structs, maps, slices, pointers (incl. null), structs with omitted fields"})
 			}})
